@@ -1,7 +1,9 @@
 #!/venv/bin/python
-"""store_seeded.py <PROP>: copies the two confirmed seeded changes of /tmp/wt_<PROP> into /verif/seeded/<PROP>_<a|b>/ (development aid)"""
+"""store_seeded.py <PROP> [name_for_a name_for_b]: copies the two confirmed seeded changes of /tmp/wt_<PROP> into
+/verif/seeded/<PROP>_<a|b>/ (or the given suffixes, e.g. c d for a second round) (development aid)"""
 import json, os, shutil, sys
 P = sys.argv[1]
+SUFFIX = dict(zip("ab", sys.argv[2:4])) if len(sys.argv) >= 4 else {"a": "a", "b": "b"}
 wt = "/tmp/wt_%s" % P
 meta = json.load(open(os.path.join(wt, "meta.json")))
 conf = [l.strip() for l in open("/tmp/confirm_%s.out" % P) if l.startswith(P)]
@@ -13,7 +15,7 @@ for v in "ab":
     if not ok:
         print("NOT CONFIRMED", P, v, mine)
         continue
-    d = os.path.join("/verif/seeded", "%s_%s" % (P, v))
+    d = os.path.join("/verif/seeded", "%s_%s" % (P, SUFFIX[v]))
     os.makedirs(d, exist_ok=True)
     shutil.copy(os.path.join(wt, "patch_%s.diff" % v), os.path.join(d, "patch.diff"))
     shutil.copy(os.path.join(wt, "demo_%s.py" % v), os.path.join(d, "demo.py"))
